@@ -146,7 +146,7 @@ def parse (b : Bytes) : Outcome Header :=
       if r.backingSize > 1023 then .err .invalid else
       let e := r.backingOff + r.backingSize
       if e ≥ 2^64 then .err .invalid else
-      if e ≥ cs then .err .invalid else
+      if e > cs then .err .invalid else
       if e > b.size then .err .invalid else
       let nm := (b.extract (e - r.backingSize) e).toList
       if utf8Valid nm then .ok (some nm) else .err .invalid
